@@ -35,7 +35,8 @@ independent (`FullRank`).
   `x`) go to related states (or both leave after the half step with the same `(iter, res, x)`), PROVIDED the bicgstabl pass
   returns normally (it throws at once on a zero `rho1` / `sigma` where bicgstab goes on for a pass) and the norm after the
   `alpha` half step is not exactly the threshold (`<=` in bicgstab.hpp, `<` in bicgstabl.hpp); `A'` linear, `P` linear for
-  right preconditioning; `bicgstabl_L1_init_rel`: the two `operator()`s enter their loops in related states.
+  right preconditioning; `bicgstabl_L1_init_rel`: the two `operator()`s enter their loops in related states;
+  `bicgstabl_L1_guard_agree`: on related states the two loop guards agree unless `zeta = eps` exactly.
 
 NOT proved here: the induction over the whole loop (a corollary of the pass theorem under the per-pass side conditions,
 not written out; the harness op `bicgstabl_vs_bicgstab` compares the REAL solvers over whole calls exactly), the case
@@ -358,6 +359,19 @@ theorem bicgstabl_L1_init_rel (prm : BiCGStabL.Params K) (prmB : BiCGStab.Params
       intro i hi
       rw [axpby_getD _ _ _ _ _ (by rw [axpby_size] at hi; exact hi), hP'.zero]; ring
 
+/-- **the loop guards agree** on related states: `iter < maxiter && zeta >= eps` (bicgstabl.hpp, `goto done` not taken) and
+`res > eps && iter < maxiter` (bicgstab.hpp; the second conjunct is the fuel of `loopE`) — unless `zeta = eps` exactly -/
+theorem bicgstabl_L1_guard_agree (side : Side) (P : Vec K → Vec K) (n maxiter : Nat) (epsT : K) (sL : BiCGStabL.St K)
+    (sB : BiCGStab.St K) (rel : Rel1 side P n sL sB) (hne : sL.zeta ≠ epsT) (hit : sL.iter < maxiter) :
+    BiCGStabL.cond maxiter epsT sL = BiCGStab.cond epsT sB := by
+  unfold BiCGStabL.cond BiCGStab.cond
+  rw [rel.notdone, ← rel.zeta]
+  simp only [Bool.not_false, Bool.true_and, hit, decide_true]
+  by_cases h : epsT < sL.zeta
+  · simp [h, lt_asymm h]
+  · have : sL.zeta < epsT := lt_of_le_of_ne (not_lt.mp h) hne
+    simp [h, this]
+
 /-! ## non-vacuity over `ℚ` with the executable root `rsqrt` -/
 section examples
 
@@ -487,6 +501,7 @@ example : ∃ sL' sB', BiCGStabL.body exPrm1 stdIp Amgcl.rsqrt (7/10) exA exP 0 
     · rw [hdn] at hd'; cases hd'
   · cases h
 example := @bicgstabl_L1_init_rel
+example := bicgstabl_L1_guard_agree exPrm1.pside exP 2 4 0 exL0 exB0 exRel0 (by decide +kernel) (by decide +kernel)
 
 -- the hypothesis `hsqrt` of the `_of_hsqrt` corollaries is satisfiable: the real square root
 example (prm : BiCGStabL.Params ℝ) :=
